@@ -25,7 +25,7 @@ EXPLANATION = (
     "`*slot = malloc(..); if (!*slot)` as tested, and only reports feasible paths (branch outcomes about "
     "the sign of an unmodified local or the value of an unmodified lvalue must not contradict each "
     "other); R1.status accepts a status that is lost on a path which itself returns a failure constant. "
-    "(6) a member released on a failure path is reset before the object is used or destroyed again (R27, library-wide: free/close/fclose/munmap or a function that frees its parameter, the member given directly or through a local copy that can still be current). (7) R1.sticky for objects that carry their own status member (the RLE encoder): after a void helper that can record a failure there, no constant success return is reached without reading the member. Decides these clauses; a NULL result that is tolerated rather than dereferenced is not decided.")
+    "(6) a member released on a failure path is reset before the object is used or destroyed again (R27, library-wide: free/close/fclose/munmap or a function that frees its parameter, the member given directly or through a local copy that can still be current). (7) R1.sticky for objects that carry their own status member (the RLE encoder): after a void helper that can record a failure there, no constant success return is reached without reading the member. (7) carquet_column_read_batch executed with the page loader hooked to fail, in its peek form (whose result the batch reader discards) and as a real read: nothing is delivered and values_remaining is unchanged, so the failure surfaces at the next real read instead of becoming `column exhausted, success`. Decides these clauses; a NULL result that is tolerated rather than dereferenced is not decided.")
 
 ALLOC_EXT = {"malloc", "calloc", "realloc", "strdup", "strndup", "aligned_alloc", "posix_memalign"}
 
@@ -123,6 +123,8 @@ def run(ctx):
 
     from ..rules import allocfail
     nf = allocfail.check(ctx, fns)
+    ctx.clause("C19.7 a page load that fails inside carquet_column_read_batch (peek or read) delivers nothing and leaves the count of undelivered values unchanged")
+    ctx.floor("C19 failed-load call forms", _failed_load_keeps_rows(ctx), 2)
     ctx.clause("C19.6 a member released on a failure path is reset before the object is used or destroyed again (rule shared with C07.5)")
     from ..rules import stalefield
     ctx.count("member_release_sites", stalefield.check(ctx, [f for f in P.lib_functions() if P.rel(f.file).startswith("src/")]))
@@ -175,3 +177,56 @@ def run(ctx):
     ctx.floor("C19 sticky codec initialisations", ns, 6)
     nsm = _sticky_members(ctx, fns)
     ctx.floor("C19 calls that may set a sticky status member", nsm, 4)
+
+
+def _failed_load_keeps_rows(ctx):
+    """carquet_column_read_batch with the page loader hooked to fail (as it does when an allocation inside it fails), for the
+    peek form (max_values = 0, whose result the batch reader discards) and for a real read: the call reports nothing read or an
+    error, and the reader still counts the rows as undelivered - a failure that marked them consumed would let the next call
+    report success with the rows missing."""
+    from ..rules import sem
+    from ..rules.skeleton import Ptr
+    from ..extract import AnalysisBroken
+    P = ctx.P
+    CR = "src/reader/column_reader.c"
+    fn = P.fn_opt("carquet_column_read_batch", CR)
+    if fn is None:
+        raise AnalysisBroken("anchor function carquet_column_read_batch in %s not found" % CR)
+    key = "failed-load|%s:carquet_column_read_batch" % CR
+    what = ("when the page load inside carquet_column_read_batch fails, the call delivers nothing and the reader's count of undelivered values is unchanged "
+            "(peek and real read)")
+    try:
+        cro = sem.field_offsets(P, "carquet_column_reader")
+        phys = P.enum("carquet_physical_type")
+        status = P.enum("carquet_status") if "carquet_status" in P.enums else {}
+        oom = status.get("CARQUET_ERROR_OUT_OF_MEMORY", 2)
+        bad, done = None, 0
+        for label, maxv in (("peek (max_values = 0)", 0), ("read of up to 10 values", 10)):
+            heap0 = {}
+            rec = P.record("carquet_column_reader")
+            for f in rec["fields"]:
+                t = (f.get("t") or "")
+                if f.get("off") is not None and "[" not in t and "struct" not in t:
+                    heap0[("cr", f["off"] // 8)] = 0
+            heap0[("cr", cro["values_remaining"])] = 100
+            heap0[("cr", cro["type"])] = phys["CARQUET_PHYSICAL_INT32"]
+            calls = []
+
+            def load(ev, a, it, calls=calls):
+                calls.append(1)
+                return oom
+            ret, ev, heap = sem.run(P, fn, [Ptr("cr", 0, 1), Ptr("vals", 0, 4), maxv, 0, 0], heap0=heap0, single=True, max_forks=16, budget=200000, inline_depth=3,
+                                    hooks={"carquet_read_next_page": load, "carquet_error_set": lambda ev, a, it: None, "snprintf": lambda ev, a, it: 0})
+            done += 1
+            if not calls:
+                raise sem.Inconclusive("%s: the page loader is not reached" % label)
+            left = heap.get(("cr", cro["values_remaining"]))
+            if not isinstance(ret, int) or not isinstance(left, int):
+                raise sem.Inconclusive("%s: returns %r, values_remaining %r" % (label, ret, left))
+            if bad is None and (ret > 0 or left != 100):
+                bad = "%s: returns %d and leaves %d of 100 values to deliver%s" % (label, ret, left, " - the column now looks exhausted" if left == 0 else "")
+        ctx.ob("R1.fail-state", key, P.where(fn.body), what + " (%d call forms)" % done, bad is None, bad or "")
+        return done
+    except (sem.Inconclusive, KeyError) as ex:
+        ctx.inconclusive("R1.fail-state", key, P.where(fn.body), what, "%s: %s" % (type(ex).__name__, ex))
+        return 0
